@@ -302,6 +302,10 @@ fn check_case_inner(cx: &mut Ctx, case: &Case, mut rep: Option<&mut Report>) -> 
     let a = model.ask(&format!("mach 1 {}", case.recv.line()));
     assert_eq!(a, "ok");
     let mut rcv = build(&case.recv);
+    let mid_frame = snap::dirty_midframe(&mut rcv, &case.recv);
+    if let Some(r) = rep.as_deref_mut() {
+        r.count("receiver_mid_frame", if mid_frame { "inside a frame, after a border write" } else { "frame start" });
+    }
     let mut known = known_banks(&case.src);
     // a 48K image carries PC inside a bank: describe that bank with the two overrides
     if !m128 {
